@@ -7,5 +7,9 @@ OptAsync0 == (d1 :> [min |-> 2, max |-> 0, asynch |-> TRUE])
 OptSync0  == (d1 :> [min |-> 2, max |-> 0, asynch |-> FALSE])
 TimeBound == now <= 12 /\ \A d \in Dialer : Len(dialLog[d]) <= 7
 PipeSym == Permutations(Pipe)
+\* liveness configurations: no state constraint (it would cut behaviours short); the environment is finite by construction
+OptNone == [d \in {} |-> [min |-> 0, max |-> 0, asynch |-> TRUE]]
+LiveNext == NextFine /\ UNCHANGED opt /\ \A d \in Dialer : Len(dialLog'[d]) <= 6
+LiveSpec == Init /\ [][LiveNext]_vars /\ Fairness /\ FairnessClose
 View == <<opt, now, sockClosed, pipeVars, async, timers, dialVars, lisVars, hookLog, protoLog>>
 ====
